@@ -240,6 +240,104 @@ pub fn read_replay(path: &str) -> Replay {
     })
 }
 
+/// A process forked before the first run that never executes the crate's code itself: every run
+/// it is asked for executes in a child forked from *it*, i.e. with the process-wide state (statics
+/// of the crate, caches) a freshly started program has.  What a change hides in a `static` is
+/// otherwise only seen by the first run of each worker.
+pub struct Zygote {
+    tx: i32,
+    rx: std::io::BufReader<std::fs::File>,
+    pid: i32,
+}
+
+impl Zygote {
+    pub fn spawn(e: &dyn Engine, prop: &str) -> Zygote {
+        Zygote::spawn_raw(&|seed| {
+            let rp = e.gen(seed, prop);
+            match run_isolated(e, &rp) {
+                Verdict::Pass => "PASS".to_string(),
+                Verdict::Viol(v) => format!("VIOL {}", serde_json::to_string(&v).unwrap()),
+                Verdict::Crash(m) => format!("CRASH {}", m),
+            }
+        })
+    }
+
+    /// `answer(seed)` runs in the zygote and must itself execute the run in a forked child.
+    pub fn spawn_raw(answer: &dyn Fn(u64) -> String) -> Zygote {
+        unsafe {
+            let (mut to, mut from) = ([0i32; 2], [0i32; 2]);
+            if libc::pipe(to.as_mut_ptr()) != 0 || libc::pipe(from.as_mut_ptr()) != 0 {
+                eprintln!("HARNESS-ERROR: pipe");
+                std::process::exit(2);
+            }
+            let pid = libc::fork();
+            if pid < 0 {
+                eprintln!("HARNESS-ERROR: fork");
+                std::process::exit(2);
+            }
+            if pid == 0 {
+                libc::close(to[1]);
+                libc::close(from[0]);
+                loop {
+                    let mut b = [0u8; 8];
+                    let mut got = 0usize;
+                    while got < 8 {
+                        let n = libc::read(to[0], b.as_mut_ptr().add(got) as *mut libc::c_void, 8 - got);
+                        if n <= 0 {
+                            libc::_exit(0);
+                        }
+                        got += n as usize;
+                    }
+                    let mut line = answer(u64::from_le_bytes(b)).replace('\n', " ");
+                    line.push('\n');
+                    libc::write(from[1], line.as_ptr() as *const libc::c_void, line.len());
+                }
+            }
+            libc::close(to[0]);
+            libc::close(from[1]);
+            let f = <std::fs::File as std::os::fd::FromRawFd>::from_raw_fd(from[0]);
+            Zygote { tx: to[1], rx: std::io::BufReader::new(f), pid }
+        }
+    }
+
+    /// the raw answer line for `seed`
+    pub fn ask(&mut self, seed: u64) -> String {
+        use std::io::BufRead;
+        let b = seed.to_le_bytes();
+        unsafe { libc::write(self.tx, b.as_ptr() as *const libc::c_void, 8) };
+        let mut line = String::new();
+        let _ = self.rx.read_line(&mut line);
+        line.trim_end().to_string()
+    }
+
+    pub fn run(&mut self, seed: u64) -> Verdict {
+        let line = self.ask(seed);
+        if line == "PASS" {
+            return Verdict::Pass;
+        }
+        if let Some(j) = line.strip_prefix("VIOL ") {
+            if let Ok(v) = serde_json::from_str::<Violation>(j) {
+                return Verdict::Viol(v);
+            }
+        }
+        if let Some(m) = line.strip_prefix("CRASH ") {
+            return Verdict::Crash(m.to_string());
+        }
+        eprintln!("HARNESS-ERROR: fresh-process runner answered {line:?}");
+        std::process::exit(2);
+    }
+}
+
+impl Drop for Zygote {
+    fn drop(&mut self) {
+        unsafe {
+            libc::close(self.tx);
+            let mut st = 0i32;
+            libc::waitpid(self.pid, &mut st, 0);
+        }
+    }
+}
+
 pub fn main_driver(e: &dyn Engine) {
     let args: Vec<String> = std::env::args().collect();
     let cmd = args.get(1).map(|s| s.as_str()).unwrap_or("");
@@ -318,6 +416,9 @@ pub fn main_driver(e: &dyn Engine) {
             let mut logf = log.map(|p| std::fs::File::create(p).unwrap());
             let mut done = 0u64;
             let mut k = start;
+            // one run in FRESH_EVERY is repeated in a process with pristine process-wide state
+            let fresh_every: u64 = arg(&args, "--fresh-every").and_then(|s| s.parse().ok()).unwrap_or(8);
+            let mut zygote = if fresh_every > 0 { Some(Zygote::spawn(e, &prop)) } else { None };
             while done < count {
                 if t0.elapsed().as_secs_f64() > deadline {
                     break;
@@ -342,6 +443,20 @@ pub fn main_driver(e: &dyn Engine) {
                 if let Some(f) = logf.as_mut() {
                     let _ = writeln!(f, "{seed} steps={} calls={} distinct={} evhash={:016x} viol={}", st.steps - before.0, st.calls - before.1, st.distinct.len(), st.evhash, v.as_ref().map(|v| format!("{}@{}:{}", v.oracle, v.step, v.detail)).unwrap_or_default());
                 }
+                let v = match (v, zygote.as_mut()) {
+                    (None, Some(z)) if crate::prng::mix2(seed, 0xf5e5) % fresh_every == 0 => {
+                        st.count("runs_repeated_in_a_fresh_process");
+                        match z.run(seed) {
+                            Verdict::Pass => None,
+                            Verdict::Viol(v) => {
+                                st.count("violations_only_in_a_fresh_process");
+                                Some(v)
+                            }
+                            Verdict::Crash(m) => Some(crash_violation(&prop, &m, 0)),
+                        }
+                    }
+                    (v, _) => v,
+                };
                 if let Some(v) = v {
                     let mut rp = rp;
                     rp.violation = Some(v.clone());
@@ -356,6 +471,7 @@ pub fn main_driver(e: &dyn Engine) {
                 done += 1;
                 k += stride;
             }
+            drop(zygote);
             let _ = std::fs::remove_file(&cur_path);
             let mut stats = serde_json::Map::new();
             stats.insert("runs".into(), json!(st.runs));
